@@ -797,7 +797,7 @@ class LoopSummary:
                         if not isinstance(c_, alg.Cond):
                             continue
                         fs = sp.sympify(c_.a).free_symbols | sp.sympify(c_.b).free_symbols
-                        if t not in fs or not (fs - wk) <= stable:
+                        if t not in fs or fs & wk or not fs <= stable:      # (a wrap count of iteration t says nothing about iteration t - 1)
                             continue
                         try:
                             pa = sp.expand(sp.sympify(c_.a).subs(t, t - 1))
